@@ -48,7 +48,8 @@ struct sim_thread {
 	const char *name;
 	uint64_t nhooks, spin_hooks;
 	int spin, slice;
-	uint64_t arm_ord; int arm_code;   // harness-placed stall: at this hook ordinal of this thread
+	uint64_t arm_ord; int arm_code;
+	uint64_t yield_hooks; int yields;   // harness-placed stall: at this hook ordinal of this thread
 	uint64_t last_run;
 	uintptr_t stk_lo, stk_hi;
 	int prio;
@@ -521,6 +522,12 @@ void _dispatch_verif_pause(void) {
 	if (!me || !active) return;
 	if (sim_k.strategy == STRAT_PCT) me->prio = --yield_low;
 	step_common(me);
+	// a thread that keeps yielding is spinning, and spinning burns time even when others are runnable (otherwise two
+	// spinners waiting for a stalled third thread would hand the processor to each other for ever with a zero tick)
+	if (me->nhooks - me->yield_hooks > 8) me->yields = 0;
+	me->yield_hooks = me->nhooks;
+	advance_to(now_ns + (50ull << (me->yields < 12 ? me->yields : 12)));
+	me->yields++;
 	reschedule(1);
 }
 void sim_yield(void) { _dispatch_verif_pause(); }
